@@ -3,6 +3,9 @@ C02, second module (kept apart from Props/C02 because it needs the PES round tri
 themselves build on Props/C02): from packet groups to the data delivered.
 -/
 import Astits.Proofs.MuxDemux
+import Astits.Proofs.MuxDemuxNext
+import Astits.Proofs.PSICompleteNext
+import Astits.Spec.RefMux
 namespace Astits.C02b
 open MuxDemux
 
@@ -20,5 +23,123 @@ theorem pes_units_delivered (pm : ProgramMap) (pid : Nat) (hes : ESPid pid pm) (
       concatPayload w.unit.packets = pesHeaderBytes w.hdr w.data.length ++ w.data) :
     deliveredOn pm pid s = ws.map fun w => .ok [pesDelivered pid w.hdr w.data w.unit.first] :=
   MuxDemux.units_delivered pm pid hes s ws hf hon hc hw
+
+/-! ## PSI side, `NextData` level: a PAT/PMT is returned by the call that reads its final packet
+
+E1–E3 at pool level are in `Props/C02.lean`; here they are lifted through the reader, the packet buffer and the data
+buffer (`Proofs/PSICompleteNext.lean`). -/
+
+section PSISide
+open PSIComplete PSIRT
+
+/-- **"A PAT or PMT is returned by the call that reads its final packet, without consuming any further byte from the
+reader."** The demuxer (188-byte packets, no fault, no skipper, no custom parser) is about to read the chunks
+`csA ++ cK :: rest`; they parse to the packets `a`, `pk` of a PAT/PMT unit written by `writePSIData` (sections that
+round-trip: C13) plus 0xFF stuffing, cut at conformant points, `pk` being the packet with the last section byte; `pid`
+is a table PID of the current program map, nothing is queued for it, the data buffer is empty. Then this `NextData`
+call returns the first section's data `x`; afterwards the reader stands right after `cK` (`188 * (a.length + 1)` bytes
+consumed, `rest` still unread), the other sections' data `xs` are in the data buffer and the PID's queue is empty. -/
+theorem table_unit_nextData (pid : Nat) (d : Demux) (htab : (pid == 0 || d.programMap.has pid) = true) (hcat : pid ≠ 1)
+    (u : UnitPk) (hu : UnitOK u) (hon : ∀ p ∈ u.packets, p.header.pid = pid)
+    (a : List Packet) (pk : Packet) (b : List Packet) (hsplit : u.packets = a ++ [pk] ++ b)
+    (pf : Nat) (ss ss' : List PSISection) (stuffing : Bytes)
+    (W : WrittenUnit (concatPayload u.packets) pf ss ss' stuffing)
+    (hbefore : (concatPayload a).length < 1 + pf + ((ss.map secBytes).flatten).length)
+    (hat : 1 + pf + ((ss.map secBytes).flatten).length ≤ (concatPayload (a ++ [pk])).length)
+    (hcut : ConformantCut a pf (ss.map secBytes))
+    (csA : List Bytes) (cK : Bytes) (rest : List Bytes) (hrep : Rep d (csA ++ cK :: rest)) (hpa : ParsesTo csA a)
+    (hpk : (parsePacket none).val cK = .ok pk) (hbuf : d.dataBuffer = []) (hq : d.pool.get pid = [])
+    (x : DemuxerData) (xs : List DemuxerData)
+    (hds : psiToData { pointerField := (pf : Int), sections := ss' } (firstOf u.packets) pid = x :: xs) :
+    ∃ d', d.nextData = (.ok x, d') ∧ Rep d' rest ∧ d'.r.data = d.r.data ∧ d'.r.pos = d.r.pos + 188 * (a.length + 1) ∧
+      d'.dataBuffer = xs ∧ d'.pool.get pid = [] :=
+  written_unit_nextData pid d htab hcat u hu hon a pk b hsplit pf ss ss' stuffing W hbefore hat hcut csA cK rest hrep hpa hpk
+    hbuf hq x xs hds
+
+/-- **the following calls return the remaining sections from the data buffer without reading**: the `k`-th further
+call returns the `k`-th buffered datum; reader, pool and program map are those left by the first call -/
+theorem buffered_sections_follow (xs : List DemuxerData) (k : Nat) (d : Demux) (h : d.dataBuffer = xs) (hk : k < xs.length) :
+    (after k d).nextData = (.ok xs[k], { d with dataBuffer := xs.drop (k + 1) }) :=
+  buffered_call_result xs k d h hk
+
+/-- one datum per PAT / PMT section, in order: what `hds` looks like for sections parsed back by the round trip -/
+theorem data_of_pat_section (pf : Int) (c : Nat) (h : PSISectionHeader) (sh : PSISectionSyntaxHeader) (x : PATData)
+    (r : List PSISection) (fp : Packet) (pid : Nat) (ht : h.tableID = 0) :
+    psiToData { pointerField := pf, sections := parsedSection c h sh { pat := some x } :: r } fp pid =
+      { firstPacket := some fp, pid := pid, pat := some x } :: psiToData { pointerField := pf, sections := r } fp pid :=
+  psiToData_cons_pat pf c h sh x r fp pid ht
+
+theorem data_of_pmt_section (pf : Int) (c : Nat) (h : PSISectionHeader) (sh : PSISectionSyntaxHeader) (x : PMTData)
+    (r : List PSISection) (fp : Packet) (pid : Nat) (ht : h.tableID = 2) :
+    psiToData { pointerField := pf, sections := parsedSection c h sh { pmt := some x } :: r } fp pid =
+      { firstPacket := some fp, pid := pid, pmt := some x } :: psiToData { pointerField := pf, sections := r } fp pid :=
+  psiToData_cons_pmt pf c h sh x r fp pid ht
+
+/-! #### non-vacuity: the two-section PAT unit of `Props/C02.lean` as four real 188-byte packets -/
+
+def exTS : Spec.TSUnit :=
+  { pid := 0, data := [], psi := true, chunks := [10, 15, 12, 3],
+    payload := [0, 0, 176, 13, 0, 7, 199, 0, 0, 0, 1, 240, 0, 80, 134, 190, 104, 0, 176, 17, 0, 7, 199, 0, 0,
+      0, 2, 240, 1, 0, 3, 240, 2, 184, 178, 78, 179, 0xff, 0xff, 0xff] }
+
+/-- the reference encoding of the unit's packets (adaptation-field stuffing), counters 15, 0, 1, 2 -/
+def exChunks : List Bytes := (Spec.packetsOf exTS 15).map Spec.tsEncode
+
+def okOr (r : Res Packet) : Packet := match r with | .ok p => p | _ => default
+def exPk (i : Nat) : Packet := okOr ((parsePacket none).val (exChunks.getD i []))
+def exUnit : UnitPk := ⟨exPk 0, [exPk 1, exPk 2, exPk 3]⟩
+
+theorem exPk_parses (i : Nat) (h : ((parsePacket none).val (exChunks.getD i [])).isOk = true) :
+    (parsePacket none).val (exChunks.getD i []) = .ok (exPk i) := by
+  unfold exPk
+  cases hr : (parsePacket none).val (exChunks.getD i []) with
+  | ok p => rfl
+  | err e => rw [hr] at h; cases h
+  | panic => rw [hr] at h; cases h
+
+example : ∃ (d : Demux) (ss' : List PSISection),
+    ((0 : Nat) == 0 || d.programMap.has 0) = true ∧ UnitOK exUnit ∧ (∀ p ∈ exUnit.packets, p.header.pid = 0) ∧
+    exUnit.packets = [exPk 0, exPk 1] ++ [exPk 2] ++ [exPk 3] ∧
+    WrittenUnit (concatPayload exUnit.packets) 0 [C02.exSec1, C02.exSec2] ss' [0xff, 0xff, 0xff] ∧
+    (concatPayload [exPk 0, exPk 1]).length < 1 + 0 + (([C02.exSec1, C02.exSec2].map secBytes).flatten).length ∧
+    1 + 0 + (([C02.exSec1, C02.exSec2].map secBytes).flatten).length ≤ (concatPayload ([exPk 0, exPk 1] ++ [exPk 2])).length ∧
+    ConformantCut [exPk 0, exPk 1] 0 ([C02.exSec1, C02.exSec2].map secBytes) ∧
+    Rep d ([exChunks.getD 0 [], exChunks.getD 1 []] ++ exChunks.getD 2 [] :: [exChunks.getD 3 []]) ∧
+    ParsesTo [exChunks.getD 0 [], exChunks.getD 1 []] [exPk 0, exPk 1] ∧
+    (parsePacket none).val (exChunks.getD 2 []) = .ok (exPk 2) ∧ d.dataBuffer = [] ∧ d.pool.get 0 = [] ∧
+    ∃ x xs, psiToData { pointerField := ((0 : Nat) : Int), sections := ss' } (firstOf exUnit.packets) 0 = x :: xs ∧ xs.length = 1 := by
+  have hsh : SyntaxHeaderOk { currentNextIndicator := true, tableIDExtension := 7, versionNumber := 3 } :=
+    ⟨by decide, by decide, by decide, by decide⟩
+  have r1 := pat_section_rt 0 { sectionLength := 1, sectionSyntaxIndicator := true, tableID := 0 } _
+    { programs := [{ programMapID := 0x1000, programNumber := 1 }], transportStreamID := 7 } rfl (by decide) hsh ⟨by decide, by decide⟩
+  have r2 := pat_section_rt 0 { sectionLength := 1, sectionSyntaxIndicator := true, tableID := 0 } _
+    { programs := [{ programMapID := 0x1001, programNumber := 2 }, { programMapID := 0x1002, programNumber := 3 }], transportStreamID := 7 }
+    rfl (by decide) hsh ⟨by decide, by decide⟩
+  have hrt : SectionsRT [C02.exSec1, C02.exSec2] _ := .cons r1 (.cons r2 .nil)
+  have hd : Rep (demuxOf exChunks.flatten)
+      ([exChunks.getD 0 [], exChunks.getD 1 []] ++ exChunks.getD 2 [] :: [exChunks.getD 3 []]) := by
+    have : [exChunks.getD 0 [], exChunks.getD 1 []] ++ exChunks.getD 2 [] :: [exChunks.getD 3 []] = exChunks := by
+      decide +kernel
+    rw [this]
+    exact rep_demuxOf exChunks (by decide +kernel)
+  refine ⟨demuxOf exChunks.flatten, _, by simp, ?_, ?_, ?_, ⟨by decide, hrt, by simp, by simp, _,
+    writePSIData_bytes 0 (by decide) _ _ hrt, by decide +kernel⟩, by decide +kernel, by decide +kernel, ?_, hd,
+    ⟨exPk_parses 0 (by decide +kernel), exPk_parses 1 (by decide +kernel), trivial⟩, exPk_parses 2 (by decide +kernel),
+    rfl, rfl, ?_⟩
+  · simp only [UnitOK, Continues, PlainPayload, exUnit]
+    decide +kernel
+  · intro p hp
+    simp only [UnitPk.packets, exUnit, List.mem_cons, List.not_mem_nil, or_false] at hp
+    rcases hp with h | h | h | h <;> (rw [h]; decide +kernel)
+  · simp [exUnit, UnitPk.packets]
+  · intro i hi hia j hj hjl
+    have hj1 : j = 1 := by simp at hjl; omega
+    subst hj1
+    have : i = 1 ∨ i = 2 := by simp at hia; omega
+    rcases this with rfl | rfl <;> decide +kernel
+  · rw [psiToData_cons_pat _ _ _ _ _ _ _ _ rfl, psiToData_cons_pat _ _ _ _ _ _ _ _ rfl]
+    exact ⟨_, _, rfl, rfl⟩
+
+end PSISide
 
 end Astits.C02b
